@@ -348,9 +348,12 @@ def rf134(run):
     for nm, v in codes:
         if v >= bound:
             continue
+        # the call family is evaluated under every operand mode (only a *reference* callee is exempt), the rest under REF and REG
+        mode_names = [m_ for m_ in modes if m_ != 'MIR_OP_BOUND'] if nm in calls else ['MIR_OP_REF', 'MIR_OP_REG']
         for i in range(5):
+          for mn in mode_names:
             ex = PE.PrintExec(tu, {}, {}, {})
-            env = {'code': v, 'i': i, 'insn->code': v, 'insn->ops[%d].mode' % i: modes['MIR_OP_REF'], 'insn->ops[i].mode': modes['MIR_OP_REF'],
+            env = {'code': v, 'i': i, 'insn->code': v, 'insn->ops[%d].mode' % i: modes[mn], 'insn->ops[i].mode': modes[mn],
                    'insn->ops[i].u.ref->item_type': kinds_['MIR_func_item']}
             skipped = False
             try:
@@ -362,16 +365,16 @@ def rf134(run):
                     if r in ('break', 'return'):
                         break
             except F.AnalysisBroken as e_:
-                raise F.AnalysisBroken('MIR_finish_func: exemptions not evaluable for %s operand %d: %s' % (nm, i, e_))
-            want = (nm == 'MIR_UNSPEC' and i == 0) or (nm in calls and i in (0, 1)) or (nm == 'MIR_VA_ARG' and i == 2)
+                raise F.AnalysisBroken('MIR_finish_func: exemptions not evaluable for %s operand %d (%s): %s' % (nm, i, mn, e_))
+            want = (nm == 'MIR_UNSPEC' and i == 0) or (nm in calls and (i == 0 or (i == 1 and mn == 'MIR_OP_REF'))) or (nm == 'MIR_VA_ARG' and i == 2)
             ok = skipped == want
             n += 1
-            if not ok or skipped:
-                run.ob(rule, (nm, i), ok, {'opcode': nm, 'operand': i, 'exempt': skipped, 'validated at creation': want})
+            if not ok or (skipped and mn == 'MIR_OP_REF'):
+                run.ob(rule, (nm, i, mn), ok, {'opcode': nm, 'operand': i, 'operand mode': mn, 'exempt': skipped, 'validated at creation': want})
             else:
-                run.ob(rule, (nm, i), ok)
+                run.ob(rule, (nm, i, mn), ok)
             if not ok and first is None:
-                first = (nm, i, skipped)
+                first = (nm, i, skipped, mn)
     # the reference callee is exempt from the mode check only: its item kind is validated right there (nothing else looks at it)
     allowed = {'MIR_import_item', 'MIR_export_item', 'MIR_forward_item', 'MIR_func_item'}
     for kn, kv in sorted(kinds_.items(), key=lambda t: t[1]):
@@ -395,9 +398,9 @@ def rf134(run):
                            'only the assertion (compiled out) looked at the kind of the callee; the generator emits a call to the address of a '
                            'prototype or data item' if not rejected else 'a legal callee kind is refused'), line=loops[0]['l'])
     if first:
-        nm, i, skipped = first
-        run.violation(rule, f, 'operand %d of %s' % (i, nm), 'MIR_finish_func %s operand %d of %s: %s' %
-                      ('does not validate' if skipped else 'validates', i, nm,
+        nm, i, skipped, mn = first
+        run.violation(rule, f, 'operand %d of %s' % (i, nm), 'MIR_finish_func %s operand %d of %s when its mode is %s: %s' %
+                      ('does not validate' if skipped else 'validates', i, nm, mn[7:],
                        'nothing checks it when the instruction is created either, so a float immediate, a label or an undeclared register is '
                        'accepted there (the generator later hangs or passes garbage)' if skipped else
                        'the operand was exempt on the reference tree (validated at creation); validating it here rejects well-formed code'),
